@@ -1,7 +1,8 @@
 // parsewrap.go — generator "parsewrap": jsonpath.go `Parse` (with its deferred function and the function it
-// returns) and cache.go `getContainer` / `putContainer` / `putSortSlice` as Lean functions over the explicit
-// global state of lean/JPV/Glob/State.lean (lean/JPV/Gen/ParseWrapGo.lean, tie T1; consumed by
-// Lemmas/GlobState.lean, Lemmas/GlobHistory.lean, Glob/Tie.lean, Props/C05State.lean, C06State.lean, C19State.lean).
+// returns), `Retrieve`, and cache.go `getContainer` / `putContainer` / `putSortSlice` as Lean functions over the
+// explicit global state of lean/JPV/Glob/State.lean (lean/JPV/Gen/ParseWrapGo.lean, tie T1; consumed by
+// Lemmas/GlobState.lean, Lemmas/GlobHistory.lean, Glob/Tie.lean, Props/C05State.lean, C06State.lean, C19State.lean,
+// RetrieveState.lean).
 //
 // Translation scheme (statement by statement; `w` is the World, threaded through every statement):
 //
@@ -18,6 +19,8 @@
 //	parser.Parse(); parser.Execute()   the ONE opaque operation `w.runActions ops`
 //	<tree>.retrieve(a, b, c)           the opaque operation `w.retrieve ops <tree> a b c o`
 //	sync.Pool.Get            `w.resultPoolGet <New> ch`, `ch` the nondeterministic choice
+//	F, E := Parse(P, C...)   `match Parse ops P C w with` — one arm per way `Parse` can end (ParseRet)
+//	F(S), F a func value     `match F with | none => nil-function panic | some F => F S ch o w`
 //
 // Accepted shapes, exactly (anything else: `untranslatable: file:line: why`, nothing is emitted):
 //
@@ -36,6 +39,10 @@
 //	  CSTMT ::= if e := R.retrieve(S, S, K); e != nil { return nil, e[.(error)] }
 //	         | if len(SL) OP ATOM { return … }  | V := make([]interface{}, len(SL) | n)
 //	         | for I := range V { V[I] = SL[I] } | return (nil | SL), nil          SL ::= V | K.result
+//	  func Retrieve(P string, S interface{}, C ...Config) ([]interface{}, error) {      (→ `def Retrieve`, RetrieveRet)
+//	      F, E := Parse(P, C...)   if E != nil { return nil, E }   return F(S) }
+//	    these three statements in this order and nothing else: no other statement, no lock, no loop, no
+//	    package-level variable, no second call
 //	cache.go      the two pools with New: func() interface{} { return new(T) };
 //	  func getContainer() *bufferContainer { return resultSyncPool.Get().(*bufferContainer) }
 //	  func putContainer(K *bufferContainer) { (K.result = K.result[:0])* resultSyncPool.Put(K) }
@@ -85,7 +92,7 @@ var pwReserved = map[string]bool{
 	"def": true, "theorem": true, "where": true, "open": true, "namespace": true, "section": true,
 	"pure": true, "some": true, "none": true, "return": true, "mut": true, "for": true, "List": true,
 	"Nat": true, "String": true, "Option": true, "Type": true, "Prop": true, "Sort": true, "World": true,
-	"Slice": true, "Container": true, "Closure": true, "Parse": true, "forRange": true, "asError": true,
+	"Slice": true, "Container": true, "Closure": true, "Parse": true, "Retrieve": true, "forRange": true, "asError": true,
 	"getContainer": true, "putContainer": true, "putSortSlice": true, "instance": true, "structure": true,
 	"inductive": true, "variable": true, "universe": true, "true": true, "false": true, "not": true,
 }
@@ -886,6 +893,129 @@ func (c *pwClosure) body(list []ast.Stmt, ind int) error {
 	return s.bad(list[len(list)-1], "the returned function must end with a return")
 }
 
+// ---- Retrieve -----------------------------------------------------------------------------------------
+
+// retrieveDef translates
+//
+//	func Retrieve(P string, S interface{}, C ...Config) ([]interface{}, error) {
+//	    F, E := Parse(P, C...)
+//	    if E != nil { return nil, E }
+//	    return F(S)
+//	}
+//
+// statement by statement into `def Retrieve`; every other shape is refused.
+func (g *pwGen) retrieveDef(jf *ast.File) error {
+	s := g.s
+	fd, n := pwFindFunc(jf, "Retrieve")
+	if n != 1 || fd.Body == nil || fd.Type.TypeParams != nil {
+		return s.badFile("jsonpath.go", "func Retrieve not found (or declared twice)")
+	}
+	var ids []*ast.Ident
+	for _, f := range fd.Type.Params.List {
+		ids = append(ids, f.Names...)
+	}
+	_, pt := tiFlatParams(fd.Type.Params)
+	if len(ids) != 3 || len(pt) != 3 || !tiIsIdent(pt[0], "string") || !tiIsEmptyIface(pt[1]) {
+		return s.bad(fd, "Retrieve must be Retrieve(path string, src interface{}, config ...Config)")
+	}
+	if el, ok := pt[2].(*ast.Ellipsis); !ok || !tiIsIdent(el.Elt, "Config") {
+		return s.bad(fd, "Retrieve must be Retrieve(path string, src interface{}, config ...Config)")
+	}
+	rn, rt := tiFlatParams(fd.Type.Results)
+	if len(rt) != 2 || rn[0] != "" || rn[1] != "" || !tiIsIfaceSlice(rt[0]) || !tiIsIdent(rt[1], "error") {
+		return s.bad(fd, "Retrieve must return ([]interface{}, error), unnamed")
+	}
+	var path, src, cfg string
+	var err error
+	if path, err = g.name(ids[0]); err != nil {
+		return err
+	}
+	if src, err = g.name(ids[1]); err != nil {
+		return err
+	}
+	if cfg, err = g.name(ids[2]); err != nil {
+		return err
+	}
+	list := fd.Body.List
+	if len(list) == 0 {
+		return s.bad(fd, "Retrieve has no statements")
+	}
+	// F, E := Parse(P, C...)
+	const want0 = "the first statement of Retrieve must be `F, E := Parse(%s, %s...)`"
+	as, ok := list[0].(*ast.AssignStmt)
+	if !ok || as.Tok != token.DEFINE || len(as.Lhs) != 2 || len(as.Rhs) != 1 {
+		return s.bad(list[0], want0, path, cfg)
+	}
+	fid, okF := as.Lhs[0].(*ast.Ident)
+	eid, okE := as.Lhs[1].(*ast.Ident)
+	call, okC := as.Rhs[0].(*ast.CallExpr)
+	if !okF || !okE || !okC || !tiIsIdent(call.Fun, "Parse") || len(call.Args) != 2 || call.Ellipsis == token.NoPos ||
+		!tiIsIdent(call.Args[0], path) || !tiIsIdent(call.Args[1], cfg) {
+		return s.bad(list[0], want0, path, cfg)
+	}
+	var fv, ev string
+	if fv, err = g.name(fid); err != nil {
+		return err
+	}
+	if ev, err = g.name(eid); err != nil {
+		return err
+	}
+	seen := map[string]bool{}
+	for _, x := range []string{path, src, cfg, fv, ev} {
+		if seen[x] {
+			return s.bad(list[0], "name %s used twice in Retrieve", x)
+		}
+		seen[x] = true
+	}
+	g.ln(0, fmt.Sprintf("/-- jsonpath.go:%d -/", s.line(fd)), "")
+	g.ln(0, fmt.Sprintf("def Retrieve (ops : Ops ι) (%s : String) (%s : Val) (%s : List Config) (ch : Choice) (o : ι) (w : World) :", path, src, cfg), "")
+	g.ln(4, "World × RetrieveRet :=", "")
+	g.ln(2, fmt.Sprintf("match Parse ops %s %s w with", path, cfg), s.str(list[0]))
+	g.ln(2, "| (w, .blocked) => (w, .blocked)", "")
+	g.ln(2, "| (w, .panicked p) => (w, .panicked p)", "")
+	g.ln(2, fmt.Sprintf("| (w, .returned %s %s) =>", fv, ev), "")
+	// if E != nil { return nil, E }
+	if len(list) < 2 {
+		return s.bad(list[0], "Retrieve must go on with `if %s != nil { return nil, %s }`", ev, ev)
+	}
+	it, ok := list[1].(*ast.IfStmt)
+	if !ok || it.Init != nil || it.Else != nil || len(it.Body.List) != 1 {
+		return s.bad(list[1], "the second statement of Retrieve must be `if %s != nil { return nil, %s }`", ev, ev)
+	}
+	b, okB := it.Cond.(*ast.BinaryExpr)
+	rs, okR := it.Body.List[0].(*ast.ReturnStmt)
+	if !okB || !okR || b.Op != token.NEQ || !tiIsIdent(b.X, ev) || !tiIsIdent(b.Y, "nil") ||
+		len(rs.Results) != 2 || !tiIsIdent(rs.Results[0], "nil") || !tiIsIdent(rs.Results[1], ev) {
+		return s.bad(list[1], "the second statement of Retrieve must be `if %s != nil { return nil, %s }`", ev, ev)
+	}
+	g.ln(2, fmt.Sprintf("match %s with", ev), "if "+s.str(it.Cond)+" {")
+	g.ln(2, fmt.Sprintf("| some %s =>", ev), "")
+	g.ln(4, fmt.Sprintf("(w, .parseErr %s)", ev), s.str(rs))
+	g.ln(2, "| none =>", "")
+	// return F(S)
+	if len(list) < 3 {
+		return s.bad(list[1], "Retrieve must end with `return %s(%s)`", fv, src)
+	}
+	rs, ok = list[2].(*ast.ReturnStmt)
+	if !ok || len(rs.Results) != 1 {
+		return s.bad(list[2], "the third statement of Retrieve must be `return %s(%s)`", fv, src)
+	}
+	call, ok = rs.Results[0].(*ast.CallExpr)
+	if !ok || !tiIsIdent(call.Fun, fv) || len(call.Args) != 1 || call.Ellipsis != token.NoPos || !tiIsIdent(call.Args[0], src) {
+		return s.bad(list[2], "the third statement of Retrieve must be `return %s(%s)`", fv, src)
+	}
+	if len(list) > 3 {
+		return s.bad(list[3], "statement after the return of Retrieve")
+	}
+	g.ln(2, fmt.Sprintf("match %s with", fv), s.str(rs))
+	g.ln(2, "| none => (w, .nilFunc)", "")
+	g.ln(2, fmt.Sprintf("| some %s =>", fv), "")
+	g.ln(2, fmt.Sprintf("let (w, ret) := %s %s ch o w", fv, src), "")
+	g.ln(2, "(w, .called ret)", "")
+	g.ln(0, "", "")
+	return nil
+}
+
 // ---- declarations -------------------------------------------------------------------------------------
 
 func pwFindFunc(f *ast.File, name string) (*ast.FuncDecl, int) {
@@ -1356,6 +1486,13 @@ func genParseWrap(repo, out string) error {
 	g.ln(2, fmt.Sprintf("(w, ParseRet.ofFrame panicking %s %s)", g.fRes, g.errRes), "")
 	g.ln(0, "", "")
 
+	// ---- Retrieve --------------------------------------------------------------------------------------
+	var retrieveLines []string
+	g.cur = &retrieveLines
+	if err := g.retrieveDef(jf); err != nil {
+		return err
+	}
+
 	hdr, err := s.header("parsewrap", files,
 		"`Parse` of jsonpath.go (its deferred function, the function it returns) and `getContainer`, `putContainer`,\n"+
 			"`putSortSlice` of cache.go, statement by statement over the explicit global state and the operations of\n"+
@@ -1367,7 +1504,7 @@ func genParseWrap(repo, out string) error {
 	var b strings.Builder
 	b.WriteString(hdr)
 	b.WriteString("import JPV.Glob.State\nset_option linter.unusedVariables false\nnamespace JPV\nnamespace Gen\nnamespace ParseWrapGo\nopen JPV.Glob\nvariable {ι : Type}\n\n")
-	for _, sec := range [][]string{cache, g.closure, deferLines, bodyLines, parseLines} {
+	for _, sec := range [][]string{cache, g.closure, deferLines, bodyLines, parseLines, retrieveLines} {
 		for _, l := range sec {
 			b.WriteString(strings.TrimRight(l, " ") + "\n")
 		}
